@@ -1,0 +1,71 @@
+//go:build verif
+
+package gtpv1
+
+// Machine-checked contracts (comment-only; read by /verif/engine, never compiled into the binary).
+// Oracle: 3GPP TS 29.281 section 5.1/5.2 (GTP-U header, extension headers) and TS 38.415 section 5.5.2
+// (PDU Session Container, DL PDU SESSION INFORMATION: PDU type in the high nibble of octet 1, QFI in the
+// low six bits of octet 2).
+
+//@ pred upfForm(m Message) = m.Flags == 0x34 && len(m.Exts) <= 1 && len(m.Payload) <= 65000 &&
+//@      (forall j int :: 0 <= j && j < len(m.Exts) ==>
+//@          typeis(m.Exts[j], PDUSessionContainer) &&
+//@          m.Exts[j].(PDUSessionContainer).QoSFlowID <= 63 && m.Exts[j].(PDUSessionContainer).PDUType <= 15)
+
+//@ func (e PDUSessionContainer) Len() (n int)
+//@   ensures [four] n == 4
+//@   modifies nothing
+//@   serves C14
+
+//@ func (e PDUSessionContainer) Encode(b []byte) (n int, err error)
+//@   requires len(b) >= 4
+//@   requires e.QoSFlowID <= 63 && e.PDUType <= 15
+//@   ensures [hdr]  b[0] == 0x85 && b[1] == 1
+//@   ensures [type] b[2] >> 4 == e.PDUType && b[2] & 0x0f == 0
+//@   ensures [qfi]  b[3] & 0x3f == e.QoSFlowID && b[3] & 0xc0 == 0
+//@   ensures [ret]  n == 4 && err == nil
+//@   modifies b[0:4]
+//@   serves C14
+
+//@ func (m Message) HasSequence() (r bool)
+//@   ensures [bit] r == (m.Flags & 2 != 0)
+//@   modifies nothing
+//@   serves C14
+
+//@ func (m Message) HasNPDUNumber() (r bool)
+//@   ensures [bit] r == (m.Flags & 1 != 0)
+//@   modifies nothing
+//@   serves C14
+
+//@ func (m Message) Len() (l int)
+//@   requires upfForm(m)
+//@   ensures [len] l == 12 + 4*len(m.Exts) + len(m.Payload)
+//@   modifies nothing
+//@   serves C14
+//@   dispatch gtpv1.Encoder: gtpv1.PDUSessionContainer
+//@   loop range(m.Exts):
+//@     invariant [acc] l == 11 + 4*idx
+
+//@ func (m Message) Encode(b []byte) (n int, err error)
+//@   requires upfForm(m)
+//@   requires len(b) == 12 + 4*len(m.Exts) + len(m.Payload)
+//@   requires separate(b, m.Payload)
+//@   ensures [fixed]  b[0] == 0x34 && b[1] == m.Type
+//@   ensures [length] uint16(b[2])<<8 | uint16(b[3]) == uint16(len(b) - 8)
+//@   ensures [teid]   uint32(b[4])<<24 | uint32(b[5])<<16 | uint32(b[6])<<8 | uint32(b[7]) == m.TEID
+//@   ensures [noext]  len(m.Exts) == 0 ==> b[11] == 0
+//@   ensures [ext]    len(m.Exts) == 1 ==> b[11] == 0x85 && b[12] == 1 &&
+//@                      b[13] == m.Exts[0].(PDUSessionContainer).PDUType << 4 &&
+//@                      b[14] == m.Exts[0].(PDUSessionContainer).QoSFlowID && b[15] == 0
+//@   ensures [payload] forall j int :: 0 <= j && j < len(m.Payload) ==> b[12 + 4*len(m.Exts) + j] == old(m.Payload[j])
+//@   ensures [ret]    n == len(b) && err == nil
+//@   modifies b[0:8], b[11:len(b)]
+//@   serves C14
+//@   dispatch gtpv1.Encoder: gtpv1.PDUSessionContainer
+//@   cases noext: len(m.Exts) == 0 | ext: len(m.Exts) == 1
+//@   loop range(m.Exts):
+//@     modifies b[11:len(b)]
+//@     invariant [pos]  pos == 11 + 4*idx
+//@     invariant [done] idx == 1 ==> b[11] == 0x85 && b[12] == 1 &&
+//@                        b[13] == m.Exts[0].(PDUSessionContainer).PDUType << 4 &&
+//@                        b[14] == m.Exts[0].(PDUSessionContainer).QoSFlowID
